@@ -855,6 +855,124 @@ def run_super_direct(pb):
 
 
 # ----------------------------------------------------------------------------------------------
+# builtins reached through functools.partial
+def _vrepr(v):
+    if callable(v) and getattr(v, '__name__', '<lambda>') != '<lambda>':
+        return v.__name__
+    if callable(v):
+        return 'lambda a, b: a + b'
+    return repr(v)
+
+
+def _callrepr(a, k):
+    return ', '.join([_vrepr(x) for x in a] + ['%s=%s' % (n, _vrepr(v)) for n, v in k.items()])
+
+
+def _add2(a, b):
+    return a + b
+
+
+PARTIAL_POOL = {
+    'sorted': ([([3, -1, 2],), (['b', 'A', 'c'],)], {'reverse': [True, False, 0, 1], 'key': [abs, None, str]}),
+    'int': ([('101',), ('101', 2), ('7',)], {'base': [2, 10, 8]}),
+    'enumerate': ([(['a', 'b'],), (['a', 'b'], 5)], {'start': [10, 1, 0]}),
+    'zip': ([([1, 2], [3]), ([1, 2], [3, 4], [5, 6]), ()], {'strict': [True, False]}),
+    'print': ([('x', 1), (), ('a', 'b', 'c')], {'sep': ['-', '+', None], 'end': ['', '!\n'], 'flush': [True, False]}),
+    'map': ([(str, [1, 2]), (_add2, [1, 2], [3, 4])], {}),
+    'filter': ([(None, [0, 1, 2])], {}),
+    'range': ([(1,), (1, 5), (1, 10, 3)], {}),
+    'abs': ([(-3,)], {}), 'len': ([([1, 2],)], {}), 'all': ([([1, 0],)], {}), 'any': ([([0, 1],)], {}),
+    'float': ([('1.5',), ()], {}),
+}
+
+
+def partial_inputs(rnd, per_shape):
+    """-> [(builtin, description, make() -> (partial object, call args, call kwargs))]
+    One or two levels of functools.partial binding leading positionals and keywords; the call site
+    repeats bound keywords with other values (Python: the call site wins)."""
+    import functools
+    import builtins as B
+    out = []
+    for b in BUILTINS:
+        argsets, kwpool = PARTIAL_POOL[b]
+        real = getattr(B, b)
+        names = sorted(kwpool)
+        for args in argsets:
+            if b == 'int' and len(args) == 2:
+                knames = []
+            elif b == 'enumerate' and len(args) == 2:
+                knames = []
+            else:
+                knames = names
+            for j in range(len(args) + 1):
+                draws = []
+                # forced: every keyword bound in the partial and repeated at the call site with another value
+                for n in knames:
+                    v1, v2 = kwpool[n][0], kwpool[n][1]
+                    draws.append(({n: v1}, {n: v2}))
+                    draws.append(({n: v2}, {n: v1}))
+                    draws.append(({n: v1}, {}))
+                if len(knames) >= 2:
+                    draws.append(({n: kwpool[n][0] for n in knames}, {n: kwpool[n][1] for n in knames}))
+                    draws.append(({n: kwpool[n][0] for n in knames}, {knames[-1]: kwpool[knames[-1]][1]}))
+                draws.append(({}, {}))
+                for _ in range(per_shape):
+                    pk = {n: rnd.choice(kwpool[n]) for n in knames if rnd.random() < 0.6}
+                    ck = {n: rnd.choice(kwpool[n]) for n in knames if rnd.random() < 0.6}
+                    draws.append((pk, ck))
+                for pk, ck in draws:
+                    pa, ca = args[:j], args[j:]
+                    levels = 1 if rnd.random() < 0.6 else 2
+                    if levels == 1:
+                        desc = 'partial(%s)(%s)' % (_callrepr((real,) + pa, pk), _callrepr(ca, ck))
+
+                        def make(real=real, pa=pa, pk=pk, ca=ca, ck=ck):
+                            return functools.partial(real, *pa, **pk), ca, dict(ck)
+                    else:
+                        i = rnd.randint(0, len(pa))
+                        pk1 = {n: rnd.choice(kwpool[n]) for n in pk if rnd.random() < 0.7}
+                        desc = 'partial(partial(%s), %s)(%s)' % (_callrepr((real,) + pa[:i], pk1), _callrepr(pa[i:], pk),
+                                                                _callrepr(ca, ck))
+
+                        def make(real=real, pa=pa, pk=pk, ca=ca, ck=ck, i=i, pk1=pk1):
+                            return functools.partial(functools.partial(real, *pa[:i], **pk1), *pa[i:], **pk), ca, dict(ck)
+                    out.append((b, desc, make))
+    return out
+
+
+def partial_merge_cases(api, rnd, n):
+    """What reaches the function: CPython's functools.partial vs converted_call's partial branch
+    (the function is an autograph artifact that records its arguments)."""
+    import functools
+    from malt.core import converter
+    got = []
+
+    def rec(*a, **k):
+        got.append((list(a), list(k.items())))
+    api.autograph_artifact(rec)
+    opts = converter.ConversionOptions(recursive=True)
+    names = ['a', 'b', 'c', 'd']
+    out = []
+    for idx in range(n):
+        pa = [rnd.randint(1, 9) for _ in range(rnd.randint(0, 2))]
+        ca = [rnd.randint(10, 19) for _ in range(rnd.randint(0, 2))]
+        pk = [(k, rnd.randint(20, 29)) for k in rnd.sample(names, rnd.randint(0, 3))]
+        ck = [(k, rnd.randint(30, 39)) for k in rnd.sample(names, rnd.randint(0, 3))]
+        p = functools.partial(rec, *pa, **dict(pk))
+        del got[:]
+        p(*ca, **dict(ck))
+        py = got[-1]
+        del got[:]
+        try:
+            api.converted_call(p, tuple(ca), dict(ck) if (ck or rnd.random() < 0.5) else None, options=opts)
+            impl = got[-1]
+        except Exception as e:   # noqa
+            impl = ([0], [('raised-' + type(e).__name__, 0)])
+        out.append((pa, pk, ca, ck, py, impl))
+    return out
+
+
+# ----------------------------------------------------------------------------------------------
 def check(run):
     thorough = run.tier == 'thorough'
     rnd = random.Random(run.seed)
@@ -879,7 +997,8 @@ def _check(run, rnd, thorough, tmp):
                 '(documented names + overload parameter names + a bogus name), truth-tested keywords with all three truth '
                 'behaviours, 5 registry configurations; values: seeded products over ints/floats/bools/strings/bytes/lists/'
                 'tuples/dicts/sets/iterators/generators/logged iterables/user objects with dunders; context builtins: every '
-                'nesting (depth<=2) of for/while/if/if-else around 8 uses of eval/locals/globals + recursion + super in methods; three-level hierarchies Base<-Middle(zero-arg super)<-Leaf[<-Leaf2] x 7 placements '
+                'nesting (depth<=2) of for/while/if/if-else around 8 uses of eval/locals/globals + recursion + super in methods; builtins behind 1-2 levels of functools.partial binding leading positionals and keywords, the call site repeating bound keywords with '
+                'other values, direct Python call vs converted_call vs converted driver; three-level hierarchies Base<-Middle(zero-arg super)<-Leaf[<-Leaf2] x 7 placements '
                 '(function body, guarded, for, while, loop+branch, branch+loop, lambda) x instance/class methods x receivers of the defining and '
                 'inheriting classes, through to_graph(driver) and directly through super_in_original_context on real frames; '
                 'distinct non-trivial = distinct (builtin, observed behaviour) pairs')
@@ -892,7 +1011,7 @@ def _check(run, rnd, thorough, tmp):
         run.note(tie_msg)
     # 2. proofs
     if tie_msg is None:
-        vlib.standard_proof_step(run, ['Builtins/BuiltinsCheck.vo', 'Builtins/Frames.vo'])
+        vlib.standard_proof_step(run, ['Builtins/BuiltinsCheck.vo', 'Builtins/Frames.vo', 'Builtins/Partial.vo'])
 
     from malt.operators import py_builtins as pb
     from malt.impl import api
@@ -924,7 +1043,12 @@ def _check(run, rnd, thorough, tmp):
     fterms = ['(%d, %s, [%s], %s, %s)' % (i, vlib.coq_str(nm), '; '.join(fr), vlib.coq_bool(inner),
                                           'None' if got is None else 'Some %d' % got)
               for i, (nm, fr, inner, got, _) in enumerate(fcases)]
-    run.count(len(bcases) + len(dcases) + len(fcases))
+    pcases = partial_merge_cases(api, rnd, 400 if thorough else 150)
+    pterms = ['(%d, [%s], %s, [%s], %s, ([%s], %s), ([%s], %s))' % (
+        i, '; '.join(map(str, pa)), coq_kws(pk), '; '.join(map(str, ca)), coq_kws(ck),
+        '; '.join(map(str, py[0])), coq_kws(py[1]), '; '.join(map(str, im[0])), coq_kws(im[1]))
+        for i, (pa, pk, ca, ck, py, im) in enumerate(pcases)]
+    run.count(len(bcases) + len(dcases) + len(fcases) + len(pcases))
     nonconf = None
     if True:
         hdr0 = ['From Coq Require Import List String Bool.', 'Import ListNotations.',
@@ -936,10 +1060,12 @@ def _check(run, rnd, thorough, tmp):
             for s in range(0, len(oterms), 400):
                 jobs.append(('ov%d' % (s // 400), hdr + ['Definition cases : list case := [', ';\n'.join(oterms[s:s + 400]), '].',
                                                          'Eval vm_compute in failing table_gen cases.'], 'overload', ocases[s:s + 400]))
+            jobs.append(('partial', hdr + ['Require Import MV.Builtins.Partial.', 'Definition cases : list pcase := [', ';\n'.join(pterms), '].',
+                                           'Eval vm_compute in failing_p partial_kw_layers_gen partial_arg_order_gen cases.'], 'partial', pcases))
             jobs.append(('nonconf', hdr + ['Eval vm_compute in map (fun p => (fst p, List.length (snd p))) (nonconforming table_gen).',
                                            'Eval vm_compute in nonconforming table_gen.'], 'nonconf', None))
         else:
-            vlib.coq_make(['Builtins/BuiltinsCheck.vo', 'Builtins/Frames.vo'])
+            vlib.coq_make(['Builtins/BuiltinsCheck.vo', 'Builtins/Frames.vo', 'Builtins/Partial.vo'])
         jobs.append(('bind', hdr0 + ['Definition cases : list bcase := [', ';\n'.join(bterms), '].',
                                      'Eval vm_compute in failing_b cases.'], 'bind', bcases))
         jobs.append(('doc', hdr0 + ['Definition cases : list dcase := [', ';\n'.join(dterms), '].',
@@ -970,6 +1096,9 @@ def _check(run, rnd, thorough, tmp):
                 elif kind == 'bind':
                     corr_bad.append('Binding.bind disagrees with CPython on %s called with %r %r: CPython gives %s' % (
                         c[4].split('\n')[0], c[1], c[2], c[3]))
+                elif kind == 'partial':
+                    corr_bad.append('partial merge: partial(rec, *%r, **%r)(*%r, **%r): CPython passes %r, converted_call passes %r, '
+                                    'model (Partial.v) disagrees with one of them' % (c[0], dict(c[1]), c[2], dict(c[3]), c[4], c[5]))
                 elif kind == 'docsig':
                     corr_bad.append('documented signature of %s disagrees with the real builtin on shape args=%d kws=%r: builtin accepts=%r'
                                     % (c[0], len(c[1]), [k for k, _ in c[2]], c[3]))
@@ -1017,6 +1146,53 @@ def _check(run, rnd, thorough, tmp):
         run.sample({'call': inputs[0][1]})
         run.sample({'call': inputs[len(inputs) // 2][1]})
         run.sample({'call': inputs[-1][1]})
+
+    # 4a'. builtins reached through functools.partial: direct Python call vs converted_call vs converted driver
+    pin = partial_inputs(rnd, 6 if thorough else 2)
+    conv_drv = None
+    try:
+        import malt
+        dpath = os.path.join(tmp, 'c14_partial_driver.py')
+        with open(dpath, 'w') as fh:
+            fh.write('def pdrv(p, a, k):\n    return p(*a, **k)\n')
+        dspec = importlib.util.spec_from_file_location('c14_partial_driver', dpath)
+        dmod = importlib.util.module_from_spec(dspec)
+        sys.modules['c14_partial_driver'] = dmod
+        dspec.loader.exec_module(dmod)
+        conv_drv = malt.to_graph(dmod.pdrv)
+    except Exception as e:   # noqa
+        failures.append(('conversion of the partial driver failed: %s: %s' % (type(e).__name__, e), {'driver': 'def pdrv(p, a, k): return p(*a, **k)'}, None))
+    pgroups = {}
+    for b, desc, make in pin:
+        def fac_of(route):
+            def f(*a, **k):
+                p_, ca, ck = make()
+                if route == 'python':
+                    return p_(*ca, **ck)
+                if route == 'converted_call':
+                    return api.converted_call(p_, tuple(ca), ck if ck else None, options=opts)
+                return conv_drv(p_, tuple(ca), ck)
+            return f
+        nofac = lambda L: ((), {})   # noqa
+        want = run_value(fac_of('python'), nofac)
+        routes = [('api.converted_call(p, args, kwargs)', 'converted_call')]
+        if conv_drv is not None:
+            routes.append(('malt.to_graph(lambda p, a, k: p(*a, **k))', 'driver'))
+        run.nontriv(('partial', b, want[0] if want[0] == 'raise' else want[-1][0], desc.count('partial(')))
+        for how, route in routes:
+            got = run_value(fac_of(route), nofac)
+            run.count()
+            if got != want:
+                pgroups.setdefault(route, []).append((b, desc, how, want, got))
+    for route, fl in sorted(pgroups.items()):
+        b, desc, how, want, got = fl[0]
+        failures.append(('%s reached through functools.partial via %s differs from the direct Python call on p = %s' % (b, how, desc),
+                         {'call': desc, 'via': how, 'python_observation': repr(want), 'converted_observation': repr(got),
+                          'also_failing': [f[1] for f in fl[1:40]],
+                          'replay': 'PYTHONPATH=/repo /venv/bin/python -c "from functools import partial; from malt.impl import api; '
+                                    'from malt.core import converter; p = <partial part of `call`>; print(p(<call part>), '
+                                    'api.converted_call(p, (<args>), {<kwargs>}, options=converter.ConversionOptions(recursive=True)))"'}, None))
+    run.extra['partial_cases'] = len(pin)
 
     # 4b. context builtins -----------------------------------------------------------------------
     progs = ctx_programs(rnd, 0)
@@ -1096,7 +1272,7 @@ def _check(run, rnd, thorough, tmp):
                               'found no failing input' % (b, nshapes),
                               {'builtin': b, 'broken_theorem': 'overload_forwards_same_call (conforms = false)',
                                'model_shapes': nshapes}, found_input=False)
-    searched = '%d value cases, %d context programs, three-level super() hierarchies: no failing input that is not a listed known finding' % (len(inputs), len(progs))
+    searched = '%d value cases, %d partial cases, %d context programs, three-level super() hierarchies: no failing input that is not a listed known finding' % (len(inputs), len(pin), len(progs))
     if unknown == 0:
         if tie_msg is not None:
             run.violation('translator no longer recognises the source: ' + tie_msg,
